@@ -247,7 +247,7 @@ impl<'a> Walker<'a> {
                     }
                     next.sort();
                     next.dedup();
-                    if next.len() > 2048 {
+                    if next.len() > 256 {
                         // too many possible stacks to track: from here on end tags are only
                         // checked for their own name (counted by the caller as a class)
                         self.overflow = true;
